@@ -712,9 +712,10 @@ class C08(Prop):
                 io = coq_list([f"(@into_operator nat {coq_tp(x['tp'], idm)} (Some {coq_list([idm(k) for k in x['order']], coq_nat)}))"
                                for x in ob.get("into_operator", [])])
                 exprs.append(f"(let mdim := {coq_mdim(spec)} in let ds := {ds} in "
+                             f"let io : list (option (list nat * list nat)) := {io} in "
                              f"match {coq_steps_expr(spec, idm)} with "
-                             f"| Some steps => (Some (map tstep_obs steps), option_map (map gate_obs) (@exponentiate_splitting nat nat mdim ds steps), {io}) "
-                             f"| None => (None, None, {io}) end)")
+                             f"| Some steps => (Some (map tstep_obs steps), option_map (map gate_obs) (@exponentiate_splitting nat nat mdim ds steps), io) "
+                             f"| None => (None, None, io) end)")
             else:
                 spec = ob["spec"]
                 for k in ob["ttn_dims"]:
@@ -832,7 +833,8 @@ class C08(Prop):
             return None if mo is None else f"TEBD construction raised {ob['construct_error']} but the model returns gates"
         if mo is None:
             return "model rejects the splitting, implementation constructs the TEBD object"
-        mgates, (mobs0, mtrace, mkept) = mo[1]
+        mgates, mrest = mo[1]
+        mobs0, mtrace, mkept = mrest[:5], mrest[5], mrest[6]      # left-nested pairs print flat
         d = self._compare_gates(ob["spec"], ob["exponents"], gates_from_model(mgates, idm), None)
         if d:
             return d
